@@ -40,7 +40,16 @@ static void op_fp_param(int argc, char **argv) {
 	raw_print(fp_prime_get(), RLC_FP_DIGS, 0);
 	fprintf(OUT, " u=%llx conv=", (unsigned long long)*fp_prime_get_rdc());
 	raw_print(fp_prime_get_conv(), RLC_FP_DIGS, 0);
-	fprintf(OUT, " qnr=%d cnr=%d mod8=%d 2ad=%d\n", fp_prime_get_qnr(), fp_prime_get_cnr(), (int)fp_prime_get_mod8(), fp_prime_get_2ad());
+	fprintf(OUT, " qnr=%d cnr=%d mod8=%d 2ad=%d width=%d srt=", fp_prime_get_qnr(), fp_prime_get_cnr(), (int)fp_prime_get_mod8(), fp_prime_get_2ad(),
+		(int)RLC_WIDTH);
+	{	/* the 2^f-th root of unity used by fp_srt, as a standard value (fixed width) */
+		bn_t t; bn_null(t); bn_new(t);
+		fp_prime_back(t, fp_prime_get_srt());
+		dig_t d[RLC_FP_DIGS];
+		for (int i = 0; i < RLC_FP_DIGS; i++) d[i] = i < (int)t->used ? t->dp[i] : 0;
+		raw_print(d, RLC_FP_DIGS, 0);
+	}
+	fputc('\n', OUT);
 }
 
 
@@ -193,6 +202,25 @@ static void op_fpd(int argc, char **argv) {
 	fputc('\n', OUT);
 }
 
+/* fpsim <alias> <a1> ... <an> : fp_inv_sim on n >= 1 elements (alias 1: results written over the operands) */
+#define FPSIM_MAX 24
+static void op_fpsim(int argc, char **argv) {
+	if (argc < 3 || argc - 2 > FPSIM_MAX) { fprintf(OUT, "bad-args\n"); return; }
+	int alias = parse_int(argv[1]), n = argc - 2, caught = 0;
+	fp_t a[FPSIM_MAX], c[FPSIM_MAX];
+	for (int i = 0; i < n; i++) {
+		fp_null(a[i]); fp_null(c[i]); fp_new(a[i]); fp_new(c[i]);
+		fp_from_tok(a[i], argv[2 + i]);
+		for (int j = 0; j < RLC_FP_DIGS; j++) c[i][j] = (dig_t)0xA5A5A5A5A5A5A5A5ULL;
+	}
+	RLC_TRY {
+		if (alias == 1) fp_inv_sim(a, (const fp_t *)a, n); else fp_inv_sim(c, (const fp_t *)a, n);
+	} RLC_CATCH_ANY { caught = 1; }
+	if (take_err() || caught) fprintf(OUT, "err");
+	else for (int i = 0; i < n; i++) { if (i) fputc(' ', OUT); fp_out(alias == 1 ? a[i] : c[i]); }
+	fputc('\n', OUT);
+}
+
 /* fpraw <op> <alias> <rawa> <rawb> : exported low-level functions on raw digit vectors (values < p) */
 static void op_fpraw(int argc, char **argv) {
 	if (argc < 5) { fprintf(OUT, "bad-args\n"); return; }
@@ -252,7 +280,7 @@ static void op_fp_write_bin(int argc, char **argv) {
 }
 
 const op_t ops_fp[] = {
-	{"fp_param", op_fp_param}, {"fp_sel", op_fp_sel}, {"fp2", op_fp2}, {"fp1", op_fp1}, {"fpe", op_fpe}, {"fpd", op_fpd}, {"fpraw", op_fpraw},
+	{"fp_param", op_fp_param}, {"fp_sel", op_fp_sel}, {"fp2", op_fp2}, {"fp1", op_fp1}, {"fpe", op_fpe}, {"fpd", op_fpd}, {"fpsim", op_fpsim}, {"fpraw", op_fpraw},
 	{"fp_read_bin", op_fp_read_bin}, {"fp_write_bin", op_fp_write_bin},
 	{NULL, NULL}
 };
